@@ -911,6 +911,13 @@ func isResourceGet(c *ssa.Call) bool {
 // isFilterOperand: the value is a load of Filter.Val, or a phi merging the
 // results of Resource.Get (and boxed relationship values) in IsAllowed.
 func isFilterOperand(v ssa.Value) bool {
+	return isFilterOperandD(v, 0)
+}
+
+func isFilterOperandD(v ssa.Value, depth int) bool {
+	if depth > 3 {
+		return false
+	}
 	for _, o := range originsNoBox(v) {
 		switch x := o.(type) {
 		case *ssa.UnOp:
@@ -925,6 +932,21 @@ func isFilterOperand(v ssa.Value) bool {
 		case *ssa.Call:
 			if isResourceGet(x) {
 				continue
+			}
+			// a small helper of the package that fetches the value: every result qualifies
+			if g := x.Common().StaticCallee(); g != nil && smallHelper(g) && g.Signature.Results().Len() == 1 {
+				okAll, n := true, 0
+				for _, b := range g.Blocks {
+					if ret, ok := b.Instrs[len(b.Instrs)-1].(*ssa.Return); ok {
+						n++
+						if !isFilterOperandD(ret.Results[0], depth+1) {
+							okAll = false
+						}
+					}
+				}
+				if okAll && n > 0 {
+					continue
+				}
 			}
 			return false
 		case *ssa.Const:
